@@ -45,13 +45,15 @@ INVARIANT Flush
 POSTCONDITION Accepted
 CHECK_DEADLOCK FALSE
 """
-ALL_NAMES = ["a.go", "b.go", "c.txt", "vendor", "testdata", ".h", "_u", "sub", "d.go", "l.go", "ld"]
-DIRS = {"vendor", "testdata", ".h", "_u", "sub", "d.go"}
+ALL_NAMES = ["a.go", "b.go", "c.txt", "vendor", "testdata", ".h", "_u", "sub", "d.go", "l.go", "ld", "_g.go"]
+DIRS = {"vendor", "testdata", ".h", "_u", "sub", "d.go", "_g.go"}
 ALPHABETS = [
     ["a.go", "c.txt", "vendor", "sub", "d.go", "l.go"],
     ["a.go", "b.go", "testdata", "sub", "ld", ".h"],
     ["a.go", "c.txt", "_u", "sub", "d.go", "ld"],
 ]
+# a small alphabet that is always used: an excluded directory whose name ends in .go, next to and below ordinary entries
+SMALL = ["a.go", "b.go", "sub", "_g.go"]
 
 
 def q(l):
@@ -155,11 +157,11 @@ def run(ctx):
     results = []
     states = trans = 0
     ntrees = nscen = 0
-    alphabets = ALPHABETS[:1] if quick else ALPHABETS
+    alphabets = (ALPHABETS[:1] if quick else ALPHABETS) + [SMALL]
     per = 420 if quick else 4000
     for ai, names in enumerate(alphabets):
         # (quick: the design check leaves out the last name of the alphabet - 2.1 M pairs with it, measured)
-        r = ctx.tlc("Discover", CFG % (q(names[:-1] if quick else names), 2, 2), "mc-discover-%d" % ai, workers=NCPU, timeout=3000)
+        r = ctx.tlc("Discover", CFG % (q(names if names is SMALL else (names[:-1] if quick else names[:6])), 2, 2), "mc-discover-%d" % ai, workers=NCPU, timeout=3000)
         states += r["distinct"]
         trans += r["states"]
         out = ctx.path("vec", "trees-%d.ndjson" % ai)
